@@ -145,9 +145,15 @@ def chk_bin(case, acc, seed):
                     break
         else:
             pos = rm.generic_real((n,), seed, tag=9, lo=0.1, hi=2.0)
-            bk = np.asarray(spec(g, pos, unit).bin(c * f, **kw))
+            sp = spec(g, pos, unit)
+            bk = np.asarray(sp.bin(c * f, **kw))
             if np.any(bk < 0) or not np.all(np.isfinite(bk)):
                 acc.violation(f'bin:{rule}:negative', sub, 'negative / non-finite bin for a positive spectrum')
+            # kinked data: the two quadrature rules give different integrals, the bins must sum to the one of the rule used
+            want = spec(g, pos, unit).integrate(c[0] * f, c[-1] * f, method=rule)
+            if not np.isclose(np.sum(bk), want, rtol=1e-10):
+                acc.violation(f'bin:{rule}:{ends}:preserve-power:{unit}', dict(sub, payload='kinked'),
+                              f'sum(bins) = {np.sum(bk)} != integral over the centre span with the same rule {want}')
     acc.cls(f'bin:{rule}:{unit}')
     acc.case(case, nontrivial=applicable, outcome=f'{rule}-{ends}-{pp}-{unit}')
 
